@@ -1,10 +1,14 @@
 package main
 
 // C14: principals survive every representation; keys never cross-verify.
-// Runs the implementation on generated keys, DID strings/bytes, signature
-// frames and signature substitutions and writes the inputs, the oracle tables
-// (base58, x509, the signatures the crypto library produced) and the observed
-// results as Gallina terms for coq/Check_C14.v.
+// Runs the implementation on generated keys, DID strings/bytes, key strings,
+// signature frames and signature substitutions and writes the inputs, the oracle
+// tables (x509, the signatures the crypto library produced) and the observed
+// results as Gallina terms for coq/Check_C14.v.  The base encodings are concrete
+// functions of the model (coq/BaseDec.v): every (input, result) pair the Go
+// base58 / multibase libraries produced during the run, plus generated near
+// misses, is written as the EXPECTED result of the Coq decoder / encoder
+// (cases_C14_prin_base_*.v, gen_c14_base.go).
 
 import (
 	"bytes"
@@ -160,44 +164,45 @@ func algFormatSigner(alg int, s principal.Signer) (string, error) {
 	return rsasigner.Format(s)
 }
 
-// oracle tables for one case
+// oracle tables for one case (x509)
 type c14Tabs struct {
-	dec  [][2]string // payload -> Some bytes | None  (rendered)
-	enc  [][2]string
 	pub  [][2]string
 	priv [][2]string
 }
 
 var c14OracleChecked, c14OracleBad int
 
+// what go-multibase answers for "z" ++ payload; recorded as an expected result of BaseDec.b58dec
 func b58decOracle(payload string) ([]byte, bool) {
 	enc, b, err := mbase.Decode("z" + payload)
-	if err != nil || enc != mbase.Base58BTC {
-		return nil, false
+	ok := err == nil && enc == mbase.Base58BTC
+	if !ok {
+		b = nil
 	}
-	return b, true
+	c14BaseRecord(0, []byte(payload), b, ok, "base58 payload met by the harness")
+	return b, ok
 }
 
 func b58encOracle(b []byte) string {
 	s, _ := mbase.Encode(mbase.Base58BTC, b)
-	// the assumed law: decode (encode b) = b
-	c14OracleChecked++
-	if back, ok := b58decOracle(s[1:]); !ok || !bytes.Equal(back, b) {
-		c14OracleBad++
+	c14BaseRecord(2, b, []byte(s[1:]), true, "bytes the harness encoded")
+	// the law proved for the model (BaseDec.b58_roundtrip), observed on the library: decode (encode b) = b
+	if len(b) > 0 {
+		c14OracleChecked++
+		if back, ok := b58decOracle(s[1:]); !ok || !bytes.Equal(back, b) {
+			c14OracleBad++
+		}
 	}
 	return s[1:]
 }
 
+// the base58 payload of a did:key string is an input of the decoder
 func (t *c14Tabs) addDecFor(s string) {
 	if strings.HasPrefix(s, "did:key:z") {
-		p := s[len("did:key:z"):]
-		b, ok := b58decOracle(p)
-		t.dec = append(t.dec, [2]string{hxs(p), coqOptBytes(b, ok)})
+		b58decOracle(s[len("did:key:z"):])
 	}
 }
-func (t *c14Tabs) addEncFor(b []byte) {
-	t.enc = append(t.enc, [2]string{hx(b), hxs(b58encOracle(b))})
-}
+func (t *c14Tabs) addEncFor(b []byte) { b58encOracle(b) }
 func (t *c14Tabs) addPubFor(alg int, b []byte) {
 	// what RSA verifier.Decode hands to x509: the bytes after the tag
 	if len(b) >= 2 {
@@ -429,7 +434,7 @@ func c14Keygen(args []string) int {
 
 func genC14(o genOpts) error {
 	r := rand.New(rand.NewSource(o.seed))
-	nEd, nRSA, nMsg, nDIDs, nDIDb, nSigRand, shardsV, shardsD := 8, 4, 5, 500, 250, 1500, 4, 2
+	nEd, nRSA, nMsg, nDIDs, nDIDb, nSigRand, shardsV, shardsD := 8, 4, 5, 500, 250, 1500, 4, 4
 	if o.tier == "thorough" {
 		nEd, nRSA, nMsg, nDIDs, nDIDb, nSigRand, shardsV, shardsD = 44, 4, 6, 20000, 6000, 30000, 16, 16
 	}
@@ -696,7 +701,7 @@ func genC14(o genOpts) error {
 		sb.WriteString(tablesV)
 		fmt.Fprintf(&sb, "Definition cases : list (N * N * bstr * N) := %s.\n", coqList(items))
 		sb.WriteString("Definition M := Eval vm_compute in map (fun i => (1, i)) (check_verifies keys msgs sigs cases).\nPrint M.\n")
-		if err := writeFile(o.out, file, sb.String()); err != nil {
+		if err := c14WriteFile(o.out, file, sb.String()); err != nil {
 			return err
 		}
 	}
@@ -739,7 +744,7 @@ func genC14(o genOpts) error {
 			if err == nil {
 				obs = fmt.Sprintf("(Some (%s, %s))", hx(v.Encode()), hx(v.DID().Bytes()))
 			}
-			vp = append(vp, fmt.Sprintf("(%s, %s, %s, %s, %s)", coqN(uint64(alg)), hxs(s), tabStr(t.dec), tabStr(t.pub), obs))
+			vp = append(vp, fmt.Sprintf("(%s, %s, %s, %s)", coqN(uint64(alg)), hxs(s), tabStr(t.pub), obs))
 			addIdx(file+"#3", "verifier-parse", map[string]any{"what": what, "alg": alg, "string": s, "ok": err == nil})
 		}
 		addSD := func(alg int, b []byte, what string) {
@@ -818,13 +823,13 @@ func genC14(o genOpts) error {
 						direct = append(direct, c14Direct{"wrap-of-wrapped", "Wrap of a wrapped verifier: accepted/refused against its DID kind", map[string]any{"id": hex.EncodeToString(idb)}})
 					}
 				}
-				wr = append(wr, fmt.Sprintf("(%s, %s, %s, %s)", coqN(uint64(i)), hx(idb), tabStr(t.enc), obs))
+				wr = append(wr, fmt.Sprintf("(%s, %s, %s)", coqN(uint64(i)), hx(idb), obs))
 				addIdx(file+"#5", "verifier-wrap", map[string]any{"alg": k.alg, "verifier": hex.EncodeToString(k.vb), "id": hex.EncodeToString(idb), "ok": err == nil})
 			}
 		}
 		hdr := "From Ucanto Require Import Base Sig Did Crypto Check_C14.\nOpen Scope N_scope.\n"
 		fmt.Fprintf(&sb, "Definition M := Eval vm_compute in map (fun i => (1, i)) (check_signs sigs keys signs).\nPrint M.\n")
-		if err := writeFile(o.out, file, sb.String()); err != nil {
+		if err := c14WriteFile(o.out, file, sb.String()); err != nil {
 			return err
 		}
 		// the remaining kinds in shards of their own (kind number = list number in the index)
@@ -841,7 +846,7 @@ func genC14(o genOpts) error {
 				}
 				fmt.Fprintf(&b, "Definition cs : list (%s) := %s.\n", typ, coqList(part))
 				fmt.Fprintf(&b, "Definition M := Eval vm_compute in map (fun i => (%d, i * %d + %d)) (%s cs).\nPrint M.\n", kind, n, s, fn)
-				if err := writeFile(o.out, fmt.Sprintf("cases_C14_prin_%s_%02d.v", name, s), b.String()); err != nil {
+				if err := c14WriteFile(o.out, fmt.Sprintf("cases_C14_prin_%s_%02d.v", name, s), b.String()); err != nil {
 					return err
 				}
 			}
@@ -854,16 +859,26 @@ func genC14(o genOpts) error {
 		if err := shard(2, "vdec", "N * bstr * list (bstr * bool) * option (bstr * bstr)", "check_vdecodes", vd, nsh); err != nil {
 			return err
 		}
-		if err := shard(3, "vparse", "N * bstr * list (bstr * option bstr) * list (bstr * bool) * option (bstr * bstr)", "check_vparses", vp, 1); err != nil {
+		if err := shard(3, "vparse", "N * bstr * list (bstr * bool) * option (bstr * bstr)", "check_vparses", vp, 2); err != nil {
 			return err
 		}
 		if err := shard(4, "sdec", "N * bstr * list (bstr * bool) * list (bstr * option bstr) * option (bstr * bstr * bstr)", "check_sdecodes", sd, nsh); err != nil {
 			return err
 		}
-		if err := shard(5, "wrap", "N * bstr * list (bstr * bstr) * option (bstr * bstr)", "check_wraps keys", wr, 1); err != nil {
+		if err := shard(5, "wrap", "N * bstr * option (bstr * bstr)", "check_wraps keys", wr, 2); err != nil {
 			return err
 		}
-		stats["principal_cases"] = map[string]any{"sign": len(signItems), "verifier_decode": nV, "verifier_parse": len(vp), "signer_decode": nS, "wrap": len(wr)}
+		// signer.Format / signer.Parse through multibase (gen_c14_base.go)
+		sp, sf, nSP := c14SignerStrings(r, keys, o.tier, addIdx, file)
+		if err := shard(6, "sparse", "N * bstr * list (bstr * bool) * list (bstr * option bstr) * option (bstr * bstr * bstr)", "check_sparses", sp, nsh); err != nil {
+			return err
+		}
+		if err := shard(7, "sformat", "bstr * bstr", "check_sformats", sf, 1); err != nil {
+			return err
+		}
+		c14ShardFn = shard
+		stats["principal_cases"] = map[string]any{"sign": len(signItems), "verifier_decode": nV, "verifier_parse": len(vp), "signer_decode": nS, "wrap": len(wr),
+			"signer_parse": nSP, "signer_format": len(sf)}
 	}
 
 	// ---- DID strings and bytes
@@ -905,7 +920,7 @@ func genC14(o genOpts) error {
 		bump(kind, o.class)
 		rp := map[string]any{"kind": kind, "string": s, "string_hex": hex.EncodeToString([]byte(s)), "class": o.class, "bytes": hex.EncodeToString(o.bytes), "String()": o.str}
 		rtViol("Parse", o, rp)
-		line := fmt.Sprintf("(%s, %s, %s, %s, %s, %s)", hxs(s), tabStr(t.dec), tabStr(t.enc), coqN(uint64(o.class)), hx(o.bytes), o.coqStr())
+		line := fmt.Sprintf("(%s, %s, %s, %s)", hxs(s), coqN(uint64(o.class)), hx(o.bytes), o.coqStr())
 		rp["coq"] = "check_did_parse " + line
 		dparse = append(dparse, dcase{line, rp})
 		if i%61 == 0 && len(samples) < 10 {
@@ -923,7 +938,7 @@ func genC14(o genOpts) error {
 		bump("bytes: "+kind, o.class)
 		rp := map[string]any{"kind": kind, "bytes_in": hex.EncodeToString(b), "class": o.class, "bytes": hex.EncodeToString(o.bytes), "String()": o.str}
 		rtViol("Decode", o, rp)
-		line := fmt.Sprintf("(%s, %s, %s, %s, %s)", hx(b), tabStr(t.enc), coqN(uint64(o.class)), hx(o.bytes), o.coqStr())
+		line := fmt.Sprintf("(%s, %s, %s, %s)", hx(b), coqN(uint64(o.class)), hx(o.bytes), o.coqStr())
 		rp["coq"] = "check_did_decode " + line
 		ddec = append(ddec, dcase{line, rp})
 	}
@@ -947,10 +962,10 @@ func genC14(o genOpts) error {
 		}
 		var sb strings.Builder
 		sb.WriteString("From Ucanto Require Import Base Sig Did Crypto Check_C14.\nOpen Scope N_scope.\n")
-		fmt.Fprintf(&sb, "Definition parses : list (bstr * list (bstr * option bstr) * list (bstr * bstr) * N * bstr * option bstr) := %s.\n", coqList(a))
-		fmt.Fprintf(&sb, "Definition decodes : list (bstr * list (bstr * bstr) * N * bstr * option bstr) := %s.\n", coqList(b))
+		fmt.Fprintf(&sb, "Definition parses : list (bstr * N * bstr * option bstr) := %s.\n", coqList(a))
+		fmt.Fprintf(&sb, "Definition decodes : list (bstr * N * bstr * option bstr) := %s.\n", coqList(b))
 		sb.WriteString("Definition M := Eval vm_compute in map (fun i => (1, i)) (check_did_parses parses) ++ map (fun i => (2, i)) (check_did_decodes decodes).\nPrint M.\n")
-		if err := writeFile(o.out, file, sb.String()); err != nil {
+		if err := c14WriteFile(o.out, file, sb.String()); err != nil {
 			return err
 		}
 	}
@@ -1049,15 +1064,22 @@ func genC14(o genOpts) error {
 			if s > 0 {
 				name = fmt.Sprintf("cases_C14_sig_%02d.v", s)
 			}
-			if err := writeFile(o.out, name, sb.String()); err != nil {
+			if err := c14WriteFile(o.out, name, sb.String()); err != nil {
 				return err
 			}
 		}
 		stats["sig_frames"] = map[string]any{"inputs": len(inputs), "classes": sigHist, "new_signature": len(ns), "new_non_standard": len(nn)}
 	}
 
+	// ---- the base encodings: near misses, then everything the libraries answered this run
+	baseStats, err := c14WriteBase(r, o, keys, addIdx)
+	if err != nil {
+		return err
+	}
+	stats["base_encodings"] = baseStats
+
 	if c14OracleBad > 0 {
-		direct = append(direct, c14Direct{"base58-oracle-law", "base58btc decode(encode(b)) != b for some b: the codec hypothesis of Did.v does not hold", map[string]any{"bad": c14OracleBad}})
+		direct = append(direct, c14Direct{"base58-oracle-law", "base58btc decode(encode(b)) != b for some non-empty b: the Go library does not satisfy BaseDec.b58_roundtrip", map[string]any{"bad": c14OracleBad}})
 	}
 	stats["base58_law_checked"] = c14OracleChecked
 	stats["verify_cases"] = len(vcases)
@@ -1079,7 +1101,7 @@ func genC14(o genOpts) error {
 // c14-replay <kind> <hex...>: re-run one case on the implementation
 func c14Replay(args []string) int {
 	if len(args) < 2 {
-		fmt.Fprintln(os.Stderr, "usage: harness c14-replay did-parse <hex string> | did-decode <hex> | sig <hex> | verify <alg> <verifier hex> <msg hex> <sig hex>")
+		fmt.Fprintln(os.Stderr, "usage: harness c14-replay did-parse <hex string> | did-decode <hex> | sig <hex> | verify <alg> <verifier hex> <msg hex> <sig hex> | base <which> <hex> | signer-parse <alg> <hex string>")
 		return 2
 	}
 	unhex := func(s string) []byte { b, _ := hex.DecodeString(s); return b }
@@ -1095,6 +1117,38 @@ func c14Replay(args []string) int {
 		o := observeDID(d, err)
 		fmt.Printf("class=%s bytes=%x String()=%q String() returned=%v Parse(String())==d: %v Decode(Bytes())==d: %v err=%v\n",
 			[]string{"error", "key", "other"}[o.class], o.bytes, o.str, o.strOK, o.rtStr, o.rtByte, err)
+	case "base": // base <which> <hex input>: what the Go base58 / multibase library answers now
+		if len(args) < 3 {
+			return 2
+		}
+		in := unhex(args[2])
+		var out []byte
+		ok := true
+		switch args[1] {
+		case "0":
+			out, ok = b58decOracle(string(in))
+		case "1":
+			out, ok = mbDecodeOracle(string(in), "replay")
+		case "2":
+			out = []byte(b58encOracle(in))
+		default:
+			out = []byte(mb64encOracle(in))
+		}
+		fmt.Printf("ok=%v result=%x\n", ok, out)
+	case "signer-parse": // signer-parse <alg> <hex string>
+		if len(args) < 3 {
+			return 2
+		}
+		alg := 0
+		if args[1] == "1" {
+			alg = 1
+		}
+		sg, err := algParseSigner(alg, string(unhex(args[2])))
+		if err != nil {
+			fmt.Printf("Parse: error (%v)\n", err)
+		} else {
+			fmt.Printf("Parse: ok Encode()=%x DID=%s\n", sg.Encode(), sg.DID().String())
+		}
 	case "sig":
 		code, size, sok, raw, rok := observeSig(unhex(args[1]))
 		fmt.Printf("Code()=%#x Size()=%d (returned %v) Raw()=%x (returned %v)\n", code, size, sok, raw, rok)
